@@ -1125,6 +1125,8 @@ class _Cfg:
     concrete_ints = False  # integer arrays created by the facade are real numpy arrays
     check_int64 = False  # emit an `int-overflow` event when an integer product can leave int64
     concrete_floats = False  # float arrays created by the facade are real numpy arrays too (fully concrete modules)
+    fp_error = False  # non-jitted numpy code runs under the programs' `warnings.simplefilter("error", RuntimeWarning)`: an invalid
+    #                   or zero-divisor ARRAY division (numpy would warn) raises, unless the code under test set np.errstate to ignore
     note_int_truediv = False  # emit an `int-truediv` event when `/` is applied to two integers (the result is a float64 in numba)
 
 
@@ -1894,8 +1896,18 @@ def _plain(x):
     return (isinstance(x, _np.ndarray) and x.dtype != object) or isinstance(x, (int, float, _np.number)) and not isinstance(x, bool)
 
 
+def _fp_raises():
+    return cfg.fp_error and _np.geterr()["invalid"] != "ignore"
+
+
 def symdiv(a, b):
     if (isinstance(a, _np.ndarray) or isinstance(b, _np.ndarray)) and _plain(a) and _plain(b):
+        if _fp_raises():
+            with _np.errstate(divide="raise", invalid="raise"):
+                try:
+                    return _np.true_divide(a, b)
+                except FloatingPointError as e:
+                    raise RuntimeWarning("%s (numpy warning turned into an error by the program's warning filter)" % e)
         with _np.errstate(all="ignore"):
             return _np.true_divide(a, b)  # concrete numeric arrays: numpy itself
     if isinstance(a, _np.ndarray) or isinstance(b, _np.ndarray):
@@ -1928,11 +1940,15 @@ def _scalar_div(a, b, array):
     if z3.is_rational_value(be):
         if be.as_fraction() == 0:
             if array:
+                if _fp_raises():
+                    raise RuntimeWarning("invalid value / divide by zero encountered in divide (numpy warning turned into an error by the program's warning filter)")
                 return SymReal(z3.RealVal(0), nan=z3.BoolVal(True))
             raise ZeroDivisionError("division by zero")
     elif Ctx.cur is not None:
         if Ctx.cur.branch(be == 0):
             if array:
+                if _fp_raises():
+                    raise RuntimeWarning("invalid value / divide by zero encountered in divide (numpy warning turned into an error by the program's warning filter)")
                 return SymReal(z3.RealVal(0), nan=z3.BoolVal(True))
             raise ZeroDivisionError("division by zero")
     return SymReal(a.e / b.e, nan=a._nan(b))
